@@ -130,6 +130,9 @@ pub struct Node {
     pub exited: Option<i32>,
     /// crash when the disk mutation counter reaches .0; .1 = after applying the mutation
     pub crash_at: Option<(u64, bool)>,
+    /// one-shot disk error: the next open-for-writing of a path containing this text fails (no space / too many
+    /// open files), as a node task sees it
+    pub fail_open: Option<String>,
     pub disk_mutations: u64,
     pub mutation_log: Option<Vec<(u64, String)>>,
     pub crashed_at: Option<(u64, String)>,
@@ -334,6 +337,7 @@ impl Kernel {
             declutter_kick: 0,
             exited: None,
             crash_at: None,
+            fail_open: None,
             disk_mutations: 0,
             mutation_log: None,
             crashed_at: None,
